@@ -66,6 +66,20 @@ def harnesses(tier):
                    unwind=12, unwindset=['token_free:5', 'token_tree_free:5'], timeout=900, mem_gb=8, slice=True,
                    bounds='engine with a 3-token tree, notes of all four kinds whose content is shared with the tree or owned, 0..2 further entries per stack',
                    desc='mmd_engine_reset with the pool disabled: every token and note freed exactly once (no double free, no use after free)'))
+    FW = [('html', 'repo:html.c', 'mmd_export_token_html', ['mmd_export_token_tree_html', 'mmd_export_token_tree_html_raw', 'mmd_export_token_tree_html_math']),
+          ('latex', 'repo:latex.c', 'mmd_export_token_latex', ['mmd_export_token_tree_latex', 'mmd_export_token_tree_latex_raw', 'mmd_export_token_tree_latex_math']),
+          ('opendocument', 'repo:opendocument-content.c', 'mmd_export_token_opendocument', ['mmd_export_token_tree_opendocument', 'mmd_export_token_tree_opendocument_raw', 'mmd_export_token_tree_opendocument_math']),
+          ('beamer', 'repo:beamer.c', 'mmd_export_token_beamer', ['mmd_export_token_tree_beamer', 'mmd_export_token_tree_latex_raw', 'mmd_export_token_tree_latex']),
+          ('memoir', 'repo:memoir.c', 'mmd_export_token_memoir', ['mmd_export_token_tree_memoir', 'mmd_export_token_tree_latex_raw', 'mmd_export_token_tree_latex'])]
+    for nm, unit, fn, trees in FW:
+        hs.append(dict(name='c01_fence_' + nm, src='c01/fence.c', defs=dict(EXPORT=fn, TREE1=trees[0], TREE2=trees[1], TREE3=trees[2], DS_NO_C_ARRAY=1), pool_off=True,
+                       units=[dict(src=unit, remove=[t for t in trees if not (nm in ('beamer', 'memoir') and 'latex' in t)]), 'repo:token.c', 'repo:stack.c', 'repo:object_pool.c', 'repo:char.c', 'common/ds_null.c'],
+                       nobody_ok='*', unwind=8, object_bits=10, timeout=900, mem_gb=6, replay=False,
+                       bounds='fenced block of 1..3 lines of arbitrary kinds (1..3 bytes each), info string absent / arbitrary 5 bytes / raw filter, filter matching or not',
+                       desc='%s, case BLOCK_CODE_FENCED: no missing line dereferenced, raw copy inside the block' % fn))
+    hs.append(dict(name='c01_source_copy', src='c19/newsize.c', unwind=8, timeout=600, mem_gb=6, functional=True, replay=False,
+                   bounds='every source length 0..8190 (symbolic)',
+                   desc='d_string_new (the private copy every string entry point makes of the caller\'s text): the buffer has room for the text and its terminator at every power-of-two length'))
     return hs
 
 CLAIM = dict(
